@@ -1438,6 +1438,11 @@ class CryptographyEngine(api.CryptographicEngine):
                 'For signing, a padding method must be specified.'
             )
 
+        if hash_alg is None:
+            raise exceptions.InvalidField(
+                'The hashing algorithm is not supported for signing.'
+            )
+
         if padding == enums.PaddingMethod.PSS:
             signature = key.sign(
                 data,
